@@ -29,6 +29,7 @@ type hprog struct {
 	FlushFirst bool
 	FlushEach  bool
 	DeclareLen bool
+	Hijack     bool // take the connection over (Upgrade), answer 101 and close
 }
 
 type progServer struct {
@@ -54,6 +55,16 @@ func (ps *progServer) base(w http.ResponseWriter, r *http.Request) {
 	}
 	ps.mu.Unlock()
 	if p == nil {
+		return
+	}
+	if p.Hijack {
+		if hj, ok := w.(http.Hijacker); ok {
+			if c, rw, err := hj.Hijack(); err == nil {
+				rw.WriteString("HTTP/1.1 101 Switching Protocols\r\nConnection: Upgrade\r\nUpgrade: websocket\r\n\r\n")
+				rw.Flush()
+				c.Close()
+			}
+		}
 		return
 	}
 	for _, h := range p.Header {
@@ -470,4 +481,114 @@ func TestVerifC14(t *testing.T) {
 		Rule:       "each handler program / upload is one evaluation (exchanged with and without size_limit over real connections); distinct = distinct (status sent, status received, flush policy, verdict) classes",
 		Bound:      fmt.Sprintf("limits 1..%d x 3 chain positions x GET/HEAD x 8 status modes x every write partition of bodies L-1,L,L+1,L+3 x 3 flush policies x declared length; uploads L-1,L,L+1,4L x 2 framings; both mountings", maxL),
 		Exhaustive: true, Sample: sample, Extra: map[string]interface{}{"wall_s": time.Since(start).Seconds()}})
+}
+
+
+// C14 from non-initial states: the same bodiless / short programs, but after the chain has
+// already served exchanges of other kinds (an Upgrade that hijacks the connection, an
+// oversized response, an oversized upload, HEAD). A wrapper or buffer that survives an
+// exchange must not leak state into the next one. Runs with GOMAXPROCS=1 so that object
+// reuse (e.g. through a sync.Pool) is deterministic.
+func TestVerifC14Hist(t *testing.T) {
+	r := vres.Open("C14", "Hist")
+	defer func() {
+		if err := r.Close(); err != nil {
+			t.Fatal(err)
+		}
+	}()
+	shard, shards := shardOf()
+	start := time.Now()
+	var evals int64
+	var outs vres.Outcomes
+	const dl = 15 * time.Second
+	const L = 3
+	preludes := []string{"upgrade", "oversize-response", "oversize-upload", "head", "plain"}
+	idx := 0
+	for _, pos := range []string{"alone", "outermost", "innermost"} {
+		for _, pre := range preludes {
+			idx++
+			if idx%shards != shard {
+				continue
+			}
+			psWith, err := newProgServer(c14Positions[pos](sizeLimitCfg(L, L), true))
+			if err != nil {
+				t.Fatal(err)
+			}
+			psWithout, err := newProgServer(c14Positions[pos](sizeLimitCfg(L, L), false))
+			if err != nil {
+				t.Fatal(err)
+			}
+			prelude := func(ps *progServer) {
+				for k := 0; k < 3; k++ {
+					e := &exch{addr: ps.addr}
+					switch pre {
+					case "upgrade":
+						ps.set(&hprog{Hijack: true})
+						c, err := net.DialTimeout("tcp", ps.addr, 5*time.Second)
+						if err == nil {
+							c.SetDeadline(time.Now().Add(5 * time.Second))
+							fmt.Fprintf(c, "GET /ws HTTP/1.1\r\nHost: x\r\nConnection: Upgrade\r\nUpgrade: websocket\r\n\r\n")
+							io.ReadAll(c)
+							c.Close()
+						}
+					case "oversize-response":
+						ps.set(&hprog{Status: 200, Parts: [][]byte{pattern(L+5, 1)}})
+						e.do(&wire.Request{Method: "GET", Target: "/p", Header: []wire.HeaderLine{{"Host", "x"}}, NoBody: true}, dl)
+					case "oversize-upload":
+						ps.set(&hprog{Status: 200, Parts: [][]byte{[]byte("k")}})
+						e.do(&wire.Request{Method: "POST", Target: "/u", Header: []wire.HeaderLine{{"Host", "x"}}, Body: pattern(4*L, 2), Chunked: true, ChunkSz: 2}, dl)
+					case "head":
+						ps.set(&hprog{Status: 404, Parts: [][]byte{[]byte("nf")}})
+						e.do(&wire.Request{Method: "HEAD", Target: "/p", Header: []wire.HeaderLine{{"Host", "x"}}, NoBody: true}, dl)
+					default:
+						ps.set(&hprog{Status: 200, Parts: [][]byte{[]byte("ok")}})
+						e.do(&wire.Request{Method: "GET", Target: "/p", Header: []wire.HeaderLine{{"Host", "x"}}, NoBody: true}, dl)
+					}
+					e.close()
+				}
+			}
+			for _, method := range []string{"GET", "HEAD"} {
+				for _, status := range []int{0, 201, 204, 301, 304, 404, 500} {
+					for _, n := range []int{0, 1, L} {
+						if (status == 204 || status == 304) && n != 0 {
+							continue
+						}
+						for _, fl := range []string{"none", "first"} {
+							comp := []int{}
+							if n > 0 {
+								comp = []int{n}
+							}
+							c := c14Case{L: L, Position: pos + "/after-" + pre, Method: method, Status: status, Comp: comp, Flush: fl}
+							// fresh connections: the prelude's state must be found through the chain, not through the connection
+							prelude(psWith)
+							prelude(psWithout)
+							req := &wire.Request{Method: method, Target: "/p", Header: []wire.HeaderLine{{"Host", "x.test"}}, NoBody: true}
+							ew, eo := &exch{addr: psWith.addr}, &exch{addr: psWithout.addr}
+							psWith.set(c.prog())
+							rw := ew.do(req, dl)
+							psWithout.set(c.prog())
+							ro := eo.do(req, dl)
+							ew.close()
+							eo.close()
+							evals++
+							key, what := c14JudgeResponse(c, rw, ro)
+							if key == "tool" {
+								t.Fatalf("%s: %s", c, what)
+							}
+							outs.Add(fmt.Sprintf("%s/%d->%d/%v", pre, status, rw.Status, key == ""))
+							if key != "" {
+								r.Violate(strings.Replace(key, "C14/", "C14/after-"+pre+"/", 1), fmt.Sprintf("%s: %s", c, what), n*10+len(pre), map[string]interface{}{"engine": "W", "test": "TestVerifC14Hist", "case": c, "prelude": pre})
+							}
+						}
+					}
+				}
+			}
+			psWith.srv.Close()
+			psWithout.srv.Close()
+		}
+	}
+	r.AddScenario(vres.Scenario{Name: "size-limit-after-other-exchanges", Engine: "W", Evaluations: evals, Distinct: int64(outs.N()), Outcomes: outs.N(),
+		Rule:       "bodiless and short handler programs exchanged with and without size_limit right after three exchanges of another kind on the same chain (Upgrade/hijack, oversized response, oversized chunked upload, HEAD, plain); GOMAXPROCS=1; distinct = (prelude, status sent, status received, verdict) classes",
+		Bound:      "3 chain positions x 5 preludes x GET/HEAD x 7 status modes x bodies {0,1,L} x 2 flush policies", Exhaustive: true,
+		Sample: map[string]interface{}{"prelude": "upgrade", "then": "GET status=204 writes=[]"}, Extra: map[string]interface{}{"wall_s": time.Since(start).Seconds()}})
 }
